@@ -7,14 +7,22 @@ pub enum ValueError { Or(ExpressionError), Other(Opaque) }
 
 // contract of `impl From<ValueError> for ExpressionError` (src/compiler/value/error.rs), used by
 // every `.map_err(Into::into)`: control flow raised by the rhs of `||` comes back out unchanged,
-// everything else becomes a plain runtime `Error`.  Discharged by Kani unit k_value_error_into.
-#[verifier::external_body]
-pub fn value_error_into(e: ValueError) -> (r: ExpressionError)
-    ensures match e {
+// everything else becomes a plain runtime `Error`.  The same contract text is verified on the
+// extracted real body by unit v_value_error_from.
+pub open spec fn spec_value_error_into(e: ValueError, r: ExpressionError) -> bool {
+    match e {
         ValueError::Or(x) => if is_ctl(x) { r == x } else { r is Error },
         ValueError::Other(_) => r is Error,
-    },
+    }
+}
+#[verifier::external_body]
+pub fn value_error_into(e: ValueError) -> (r: ExpressionError)
+    ensures spec_value_error_into(e, r),
 { unimplemented!() }
+impl ValueError {
+    #[verifier::external_body]
+    pub fn message(&self) -> (r: Msg) { unimplemented!() }
+}
 
 pub open spec fn spec_and(a: Value, b: Value) -> Option<Value> {
     match (a, b) {
